@@ -795,7 +795,8 @@ def oracle_fitted_state(case, ctx):
     before = _snapshot(est)
     r = sut(fit, est)
     if isinstance(r, Raised):
-        raise AssertionError("generator produced an estimator that cannot be fitted: %s %r" % (desc, r))
+        # valid data, valid configuration: on the unchanged tree this fit always succeeds
+        return discs + [D("valid_fit_rejected:%s:%s@%s" % (type(est).__name__, r.type, r.where), "%s: %s" % (desc, r.msg))]
     if r is not est:
         discs.append(D("fit_not_self:%s" % type(est).__name__, desc))
     if sut(lambda: est.is_fitted) is not True:
